@@ -163,6 +163,8 @@ class Kernel:
             for k in ("ASAN_OPTIONS", "UBSAN_OPTIONS"):
                 if k in e and "log_path" not in e[k]:
                     e[k] += ":log_path=%s/%s" % (p.logdir, k[:-8].lower())
+        if argv and os.path.basename(str(argv[0])) == "valgrind" and p.logdir:
+            argv = [argv[0], "--log-file=%s/vg.%%p" % p.logdir] + list(argv[1:])
         stdin = subprocess.DEVNULL
         if stdin_data is not None:
             # what the program finds on its standard input (e.g. a password piped in), then end of file
@@ -561,11 +563,16 @@ class Kernel:
         text = ""
         if p.logdir and os.path.isdir(p.logdir):
             for fn in sorted(os.listdir(p.logdir)):
-                if fn.startswith(("asan", "ubsan")):
+                if fn.startswith(("asan", "ubsan", "vg.")):
                     try:
-                        text += open(os.path.join(p.logdir, fn), errors="replace").read()
+                        t = open(os.path.join(p.logdir, fn), errors="replace").read()
                     except OSError:
-                        pass
+                        continue
+                    if fn.startswith("vg.") and not any(w in t for w in ("uninitialised", "Invalid read", "Invalid write", "overlap",
+                                                                         "Invalid free", "Mismatched free", "Process terminating",
+                                                                         "Jump to the invalid")):
+                        continue         # (valgrind's own warnings are not findings)
+                    text += t
             if p.stderr_path and os.path.exists(p.stderr_path):
                 try:
                     st = open(p.stderr_path, errors="replace").read()
